@@ -42,8 +42,12 @@ type LConv struct {
 	// update:ignoreZeroValueField:basic over structs that hold an unsafe.Pointer field (a
 	// basic type whose zero value is nil).
 	UnsafeZero bool `json:"unsafe_zero,omitempty"`
+	// Empty: a goverter:variables block without any function (var ()): its output file is
+	// still written (package clause only), replacing whatever an earlier run left there.
+	Empty bool `json:"empty,omitempty"`
 	// Exotic adds one more method over legal but rarely used shapes:
 	// uintptr-list ([]uintptr fields) | unsafeptr-list ([]unsafe.Pointer fields) |
+	// self-ref-types (type Tree []Tree, type Dict map[string]Dict) |
 	// update-func-nosource (update method with `goverter:map F | Func`, Func taking no source).
 	Exotic string `json:"exotic,omitempty"`
 	// PkgFirst: the output:package line is written above the output:file line.
@@ -425,6 +429,9 @@ func (s *LSpec) renderConv(b *strings.Builder, c *LConv) {
 			}
 			m1 += fmt.Sprintf("    %s%s(source Ex%s) ExOut%s\n", c.method(3), fn, n, n)
 			defer fmt.Fprintf(b, "type Ex%s struct {\n    Label string\n    Handles []%s\n}\ntype ExOut%s struct {\n    Label string\n    Handles []%s\n}\n\n", n, et, n, et)
+		case "self-ref-types":
+			m1 += fmt.Sprintf("    %s%s(source Ex%s) ExOut%s\n", c.method(3), fn, n, n)
+			defer fmt.Fprintf(b, "type Tree%s []Tree%s\ntype Dict%s map[string]Dict%s\ntype Ex%s struct {\n    Label string\n    Kids Tree%s\n    Maps Dict%s\n}\ntype ExOut%s struct {\n    Label string\n    Kids Tree%s\n    Maps Dict%s\n}\n\n", n, n, n, n, n, n, n, n, n, n)
 		case "update-func-nosource":
 			m1 += fmt.Sprintf("    // goverter:update target\n    // goverter:map Stamp | Stamp%s\n    %s%s(source Ex%s, target *ExOut%s)\n", n, c.method(3), fn, n, n)
 			defer fmt.Fprintf(b, "func Stamp%s() int { return 7 }\n\ntype Ex%s struct{ Label string }\ntype ExOut%s struct {\n    Label string\n    Stamp int\n}\n\n", n, n, n)
@@ -440,6 +447,8 @@ func (s *LSpec) renderConv(b *strings.Builder, c *LConv) {
 		fmt.Fprintf(b, "%s\ntype %s[T any] interface {\n    %s(source Gen%s[T]) GenOut%s[T]\n}\n\ntype Gen%s[T any] struct{ A T }\ntype GenOut%s[T any] struct{ A T }\n\n", strings.Join(lines, "\n"), n, c.method(0), n, n, n, n)
 	} else if c.Kind == "interface" {
 		fmt.Fprintf(b, "%s\ntype %s interface {\n%s    %s%s\n%s}\n\n", strings.Join(lines, "\n"), n, methodDoc, c.method(0), sig0, m1)
+	} else if c.Empty {
+		fmt.Fprintf(b, "%s\nvar ()\n\n", strings.Join(lines, "\n"))
 	} else {
 		fmt.Fprintf(b, "%s\nvar (\n%s    %s func%s\n%s)\n\n", strings.Join(lines, "\n"), methodDoc, c.method(0), sig0, m1)
 	}
@@ -776,6 +785,10 @@ func DrawLayout(rng *rand.Rand, nConv int, opts LayoutOpts) *LSpec {
 	}
 	if opts.UnsafeZero {
 		for i := range s.Convs {
+			if s.Convs[i].Kind == "variables" && !s.Convs[i].Guarded && s.Convs[i].ExtIn == "" && rng.IntN(3) == 0 {
+				s.Convs[i].Empty = true
+				continue
+			}
 			switch rng.IntN(8) {
 			case 0, 1:
 				s.Convs[i].UnsafeZero = true
@@ -785,6 +798,8 @@ func DrawLayout(rng *rand.Rand, nConv int, opts LayoutOpts) *LSpec {
 				s.Convs[i].Exotic = "unsafeptr-list"
 			case 4:
 				s.Convs[i].Exotic = "update-func-nosource"
+			case 5:
+				s.Convs[i].Exotic = "self-ref-types"
 			}
 		}
 	}
